@@ -573,13 +573,13 @@ Proof.
 Qed.
 
 Lemma rep_at_try_w_care A B (care : result B -> Prop) (m m' : M A) (h : result A -> wr -> M B) s :
-  rep_at m m' s ->
-  (forall r wa wa' s1, nd wa' <= nd wa -> care (res (h r wa s1)) -> rep_at (h r wa) (h r wa') s1) ->
+  rep_at m m' s -> sublist (rpd (w (m s))) (rd (w (m s))) ->
+  (forall r wa wa' s1, nd wa' <= nd wa -> (rd wa = [] -> rd wa' = []) -> care (res (h r wa s1)) -> rep_at (h r wa) (h r wa') s1) ->
   (~ good (res (m s)) -> good (res (h (res (m s)) (w (m s)) (post (m s)))) -> care (res (h (res (m s)) (w (m s)) (post (m s)))) ->
    dirty (w (h (res (m s)) (w (m s)) (post (m s)))) = true) ->
   care (res (try_w m h s)) -> rep_at (try_w m h) (try_w m' h) s.
 Proof.
-  intros Hm Hh Hbad Hc Hg Hd c. unfold try_w in *. cbn [res post w] in *.
+  intros Hm Hsub Hh Hbad Hc Hg Hd c. unfold try_w in *. cbn [res post w] in *.
   apply dirty_wapp in Hd. destruct Hd as [Hd1 Hd2].
   destruct (good_dec _ (res (m s))) as [G|NG].
   - cbn [rpd wapp]. rewrite <- app_assoc.
@@ -589,7 +589,9 @@ Proof.
     assert (Epost : post o1' = with_src (post (m s)) (SBuf (rpd (w (h (res (m s)) (w (m s)) (post (m s)))) ++ c))).
     { apply st_eq; cbn; [exact R3|exact R2]. }
     rewrite Epost.
-    destruct (Hh (res (m s)) (w (m s)) (w o1') (post (m s)) R7 Hc Hg Hd2 c) as [S1 S2 S3 S4 S5 S6 S7 S8].
+    assert (Hrd : rd (w (m s)) = [] -> rd (w o1') = []).
+    { intros E. rewrite E in Hsub. apply sublist_nil_r in Hsub. rewrite R4, Hsub. reflexivity. }
+    destruct (Hh (res (m s)) (w (m s)) (w o1') (post (m s)) R7 Hrd Hc Hg Hd2 c) as [S1 S2 S3 S4 S5 S6 S7 S8].
     constructor; cbn; try assumption; try congruence. lia.
     rewrite R8, S8. reflexivity.
   - rewrite (Hbad NG Hg Hc) in Hd2. discriminate.
@@ -749,25 +751,31 @@ Section InterpReplay.
   Proof. intros s _ _ c; constructor; cbn; auto. Qed.
 
   Lemma run_action_rep id (run_act : nat -> val -> M val) i st s :
+    (forall i st, INV (run_act i st)) ->
     (forall i st, replays (run_act i st)) ->
     res (run_action id run_act i st s) <> Ok ARejected ->
     rep_at (run_action id run_act i st) (run_action id run_act i st) s.
   Proof.
-    intros Ha Hne. unfold run_action in *.
-    apply (rep_at_try_w_care _ _ (fun r => r <> Ok ARejected)); [| | |exact Hne].
+    intros Hai Ha Hne. unfold run_action in *.
+    set (h1 := fun (r : result val) (wa : wr) =>
+             _ <- emit_u (UActEnd i (match r with Ok _ => 0 | Err _ => if Nat.eqb (nd wa) 0 then 1 else 2 end)) ;;
+             match r with Ok s' => _ <- failOnError (SRepeatAction id) ;; ret s' | Err e => throw e end) in *.
+    assert (Hinv1 : INV (try_w (run_act i st) h1)).
+    { apply inv_try_w; [apply Hai|]. intros r wa. unfold h1. apply inv_bind; [apply inv_emit_u|intros _]. destruct r; inv_auto. }
+    apply (rep_at_try_w_care _ _ (fun r => r <> Ok ARejected)); [|apply Hinv1| | |exact Hne].
     - (* the action with its failOnError *)
-      apply (rep_at_try_w_care _ _ (fun _ => True)); [apply Ha| | |exact I].
-      + intros r wa wa' s1 _ _. apply rep_at_bind; [apply replays2_emit_u|intros _ _].
+      apply (rep_at_try_w_care _ _ (fun _ => True)); [apply Ha|apply Hai| | |exact I].
+      + intros r wa wa' s1 _ _ _. unfold h1. apply rep_at_bind; [apply replays2_emit_u|intros _ _].
         destruct r; [apply replays_bind; [apply replays_failOnError|intros; apply replays_ret]|apply replays_throw].
       + intros NG Hg _. exfalso. destruct (not_good_cases _ _ NG) as [E|[m [E Hi]]]; rewrite E in Hg;
-          unfold bind in Hg; cbn in Hg; [contradiction|congruence].
-    - intros r wa wa' s1 Hnd Hc. destruct r as [v|e]; [apply replays_ret|].
+          unfold h1, bind in Hg; cbn in Hg; [contradiction|congruence].
+    - intros r wa wa' s1 Hnd Hrd Hc. destruct r as [v|e]; [apply replays_ret|].
       destruct e; try apply replays_throw.
       apply rep_at_bind; [apply replays_get_ts|intros t0 Ht0].
       cbn [get_ts res post] in Ht0. injection Ht0 as <-.
       destruct (failed (ts s1)) eqn:Ef; [apply replays_throw|].
-      destruct (Nat.eqb (nd wa) 0) eqn:E0.
-      + apply Nat.eqb_eq in E0. assert (E0' : nd wa' = 0) by lia. rewrite E0'. cbn [Nat.eqb].
+      destruct (rd wa) as [|x0 l0] eqn:E0.
+      + rewrite (Hrd eq_refl).
         apply replays_bind; [destruct (internal_msg m); [apply replays_mark_dirty|apply replays_ret]|intros; apply replays_ret].
       + exfalso. apply Hc. unfold bind. cbn [get_ts res post]. rewrite ?Ef, ?E0. reflexivity.
     - intros NG Hg Hc. destruct (not_good_cases _ _ NG) as [E|[m [E Hi]]]; rewrite E in *.
@@ -775,7 +783,7 @@ Section InterpReplay.
       + unfold bind at 1. unfold bind at 1 in Hg. unfold bind at 1 in Hc. cbn [get_ts res post w] in *.
         destruct (failed (ts _)).
         * cbn in Hg. congruence.
-        * destruct (Nat.eqb _ 0).
+        * destruct (rd _).
           -- rewrite Hi. unfold bind. cbn. reflexivity.
           -- exfalso. apply Hc. reflexivity.
   Qed.
@@ -850,7 +858,7 @@ Section InterpReplay.
       intros Hne. unfold inner in *. apply rep_at_bind.
       - apply rep_at_group; [apply inv_genIndex|apply replays_genIndex; exact HLF].
       - intros i Hi. apply rep_at_bind; [apply replays_emit_u|intros _ _].
-        apply run_action_rep; [exact Ha|]. intros E. apply Hne.
+        apply run_action_rep; [exact Hai|exact Ha|]. intros E. apply Hne.
         unfold bind at 1. rewrite Hi. unfold bind at 1. cbn [emit_u res post]. exact E.
     Qed.
     Lemma inner_consumes st s r : res (inner st s) = Ok r -> rd (w (inner st s)) <> [].
